@@ -151,7 +151,17 @@ def _run_case(case, out):
         cls = classes[entry[2] if len(entry) > 2 else 0]
         if cls is not SimEvent:
             out.label("event-subclass")
-        events.append(cls(_decode_time(t), _TARGET, "noop", p))
+        if len(events) % 3 == 2:
+            # every third event is created by another thread (which ends before the next event is created): the
+            # creation order - the last tie-breaker - is the same whatever thread creates an event
+            import threading
+            box = []
+            th = threading.Thread(target=lambda: box.append(cls(_decode_time(t), _TARGET, "noop", p)))
+            th.start()
+            th.join()
+            events.append(box[0])
+        else:
+            events.append(cls(_decode_time(t), _TARGET, "noop", p))
     n = len(events)
     specs = [list(e) for e in case["pool"]]
     # reference key, independent of SimEvent's own comparison code
